@@ -430,6 +430,20 @@ func (cs *CondSpace) formulaOf(v ssa.Value) *cformula {
 			return f
 		}
 	case *ssa.BinOp:
+		// status.FromContextError(e).Err() is nil exactly when e is nil (trusted library semantics: FromContextError(nil) is
+		// the nil status, whose Err() is nil; any other error gives a non-OK status): its comparison with nil is e's
+		if (x.Op == token.EQL || x.Op == token.NEQ) && cs.phiDepth < 3 {
+			for _, pair := range [][2]ssa.Value{{x.X, x.Y}, {x.Y, x.X}} {
+				if !isNilConst(pair[1]) {
+					continue
+				}
+				if errCall, ok := stripConv(pair[0]).(*ssa.Call); ok && strings.HasSuffix(calleeOf(&errCall.Call).Name(), "status.(*Status).Err") && len(errCall.Call.Args) == 1 {
+					if fce, ok := stripConv(errCall.Call.Args[0]).(*ssa.Call); ok && strings.HasSuffix(calleeOf(&fce.Call).Name(), "status.FromContextError") && len(fce.Call.Args) == 1 {
+						return cs.formulaOf(&ssa.BinOp{Op: x.Op, X: fce.Call.Args[0], Y: pair[1]})
+					}
+				}
+			}
+		}
 		// a merged value compared with nil (err := f(); if err == nil { err = g() }; if err != nil …): the comparison is the
 		// disjunction over the phi's incoming edges of (edge taken ∧ that edge's value compared with nil)
 		if (x.Op == token.EQL || x.Op == token.NEQ) && cs.phiDepth < 3 {
